@@ -464,22 +464,27 @@ Definition with_act (r : urec) (act : Z) : urec :=
 (* IterateUndelegationsByStakerAndAsset(isUpdate = true) with the closure of UpdateNSTBalance: walks the staker-index
    entries under staker/asset/ in key order, reads each record from the live store, lowers ActualCompletedAmount and
    the staker's TotalDepositAmount, writes the record back, stops when nothing is left to slash.
-   Result: state, amount still to slash, amount taken from records. *)
-Fixpoint nst_records (entries : list (string * string)) (s : st) (sk : string) (pend acc : Z) : option (st * Z * Z) :=
-  match entries with
-  | [] => Some (s, pend, acc)
-  | (_, rk) :: rest =>
-      match sget (ur s) rk with
+   One iteration (for the record key [rk], [pend] still to slash); result: state and what is still to slash.
+   The ghost event books the amount to the asset of the record that was hit. *)
+Definition nst_record_step (s : st) (sk : string) (pend : Z) (rk : string) : option (st * Z) :=
+  match sget (ur s) rk with
+  | None => None
+  | Some r =>
+      let pend' := pend - ur_act r in
+      let sl := if 0 <? pend' then ur_act r else pend in
+      match upd_sa s sk (- sl) 0 0 with
       | None => None
-      | Some r =>
-          let pend' := pend - ur_act r in
-          let sl := if 0 <? pend' then ur_act r else pend in
-          match upd_sa s sk (- sl) 0 0 with
-          | None => None
-          | Some s1 =>
-              let s2 := w_ur (sset (ur s1) rk (with_act r (ur_act r - sl))) s1 in
-              if 0 <? pend' then nst_records rest s2 sk pend' (acc + sl) else Some (s2, pend', acc + sl)
-          end
+      | Some s1 => Some (log_ev (GNstM (ur_asset r) sl) (w_ur (sset (ur s1) rk (with_act r (ur_act r - sl))) s1), pend')
+      end
+  end.
+
+Fixpoint nst_records (entries : list (string * string)) (s : st) (sk : string) (pend : Z) : option (st * Z) :=
+  match entries with
+  | [] => Some (s, pend)
+  | (_, rk) :: rest =>
+      match nst_record_step s sk pend rk with
+      | None => None
+      | Some (s2, pend') => if 0 <? pend' then nst_records rest s2 sk pend' else Some (s2, pend')
       end
   end.
 
@@ -500,22 +505,29 @@ Fixpoint nst_total (rows : list (string * dg_row)) (s : st) (asset : string) : o
            end
   end.
 
-(* the proportional removal from every delegation of the staker: RemoveShare(isUndelegation = false, ...) *)
-Fixpoint nst_shares (rows : list (string * dg_row)) (s : st) (staker asset : string) (prop acc : Z) : option (st * Z) :=
+(* the proportional removal from one delegation of the staker: RemoveShare(isUndelegation = false, ...) and the closure's
+   TotalDepositAmount update; the ghost event books the removed tokens to the asset of the pool row that was hit *)
+Definition nst_share_step (s : st) (staker asset : string) (prop : Z) (k : string) (row : dg_row) : option st :=
+  let op := key_operator k in
+  let sh := dec_mul (dg_sh row) prop in
+  if sh <=? 0 then None
+  else match sget (oa s) (oa_key op asset) with None => None | Some o =>
+  if sh >? oa_tsh o then None else
+  match (if oa_tsh o =? sh then Some (oa_amt o) else tokens_from_shares sh (oa_tsh o) (oa_amt o)) with None => None | Some tok =>
+  match upd_oa s (oa_key op asset) (- tok) 0 (- sh) 0 with None => None | Some s1 =>
+  match upd_dg s1 (dg_key staker asset op) (- sh) 0 with None => None | Some (s2, isz) =>
+  match (if isz then delete_staker s2 (oa_key op asset) staker else Some s2) with None => None | Some s3 =>
+  match upd_sa s3 (sa_key staker asset) (- tok) 0 0 with None => None | Some s4 =>
+  Some (log_ev (GNstM (key_asset (oa_key op asset)) tok) s4) end end end end end end.
+
+Fixpoint nst_shares (rows : list (string * dg_row)) (s : st) (staker asset : string) (prop : Z) : option st :=
   match rows with
-  | [] => Some (s, acc)
+  | [] => Some s
   | (k, row) :: rest =>
-      let op := key_operator k in
-      let sh := dec_mul (dg_sh row) prop in
-      if sh <=? 0 then None
-      else match sget (oa s) (oa_key op asset) with None => None | Some o =>
-      if sh >? oa_tsh o then None else
-      match (if oa_tsh o =? sh then Some (oa_amt o) else tokens_from_shares sh (oa_tsh o) (oa_amt o)) with None => None | Some tok =>
-      match upd_oa s (oa_key op asset) (- tok) 0 (- sh) 0 with None => None | Some s1 =>
-      match upd_dg s1 (dg_key staker asset op) (- sh) 0 with None => None | Some (s2, isz) =>
-      match (if isz then delete_staker s2 (oa_key op asset) staker else Some s2) with None => None | Some s3 =>
-      match upd_sa s3 (sa_key staker asset) (- tok) 0 0 with None => None | Some s4 =>
-      nst_shares rest s4 staker asset prop (acc + tok) end end end end end end
+      match nst_share_step s staker asset prop k row with
+      | None => None
+      | Some s' => nst_shares rest s' staker asset prop
+      end
   end.
 
 Definition nst_balance (s : st) (staker asset : string) (x : Z) : option st :=
@@ -526,22 +538,22 @@ Definition nst_balance (s : st) (staker asset : string) (x : Z) : option st :=
     match sget (sa s) sk with None => None | Some info =>
     let pend0 := - x - sa_wd info in
     let sfw := if 0 <? pend0 then sa_wd info else - x in
-    match upd_sa s sk (- sfw) (- sfw) 0 with None => None | Some s1 =>
+    match upd_sa s sk (- sfw) (- sfw) 0 with None => None | Some s1' =>
+    let s1 := log_ev (GNstM asset sfw) s1' in
     if 0 <? pend0 then
-      match nst_records (prefix_iter (join2 staker asset ++ "/") (sidx s1)) s1 sk pend0 0 with None => None | Some (s2, pend1, a1) =>
+      match nst_records (prefix_iter (join2 staker asset ++ "/") (sidx s1)) s1 sk pend0 with None => None | Some (s2, pend1) =>
       if 0 <? pend1 then
         let rows := prefix_iter (join2 staker asset ++ "/") (dg s2) in
         match nst_total rows s2 asset with None => None | Some total =>
-        if total =? 0 then Some (log_ev (GNstM asset (sfw + a1)) s2)
+        if total =? 0 then Some s2
         else
           let p0 := dec_quo (dec_of_int pend1) (dec_of_int total) in
           let prop := if p0 >? P then P else p0 in
-          match nst_shares rows s2 staker asset prop 0 with None => None | Some (s3, a2) =>
-          Some (log_ev (GNstM asset (sfw + a1 + a2)) s3) end
+          nst_shares rows s2 staker asset prop
         end
-      else Some (log_ev (GNstM asset (sfw + a1)) s2)
+      else Some s2
       end
-    else Some (log_ev (GNstM asset sfw) s1)
+    else Some s1
     end end
   else Some s.
 
@@ -556,7 +568,7 @@ Inductive op :=
 | HoldInc (rk : string)
 | HoldDec (rk : string)
 | EndBlock
-| NstBalance (staker asset : string) (x : Z).   (* DelegationKeeper.UpdateNSTBalance; outside the theorem fragment, see wf_op *)
+| NstBalance (staker asset : string) (x : Z).   (* DelegationKeeper.UpdateNSTBalance *)
 
 Definition of_opt (s : st) (o : option st) : st * res :=
   match o with Some s' => (s', ROk) | None => (s, RErr) end.
